@@ -41,6 +41,9 @@ TEMPLATES = [
     ('insert-values-later-rows', 'INSERT INTO int1.t1 (a, b, c) VALUES (1, 2, 3), ({P}, 7, {P}), (4, 5, 6), (8, {P}, 9)'),
     ('insert-values-last-row', "INSERT INTO int1.t1 (a, b) VALUES (1, 'x'), (2, 'y'), (3, {P})"),
     ('insert-select', 'INSERT INTO int1.t1 (a, b) SELECT x, {P} FROM int1.t2 WHERE y = {P}'),
+    # placeholders INSIDE the expressions of a VALUES row (not the row values themselves), with and without a column list
+    ('insert-values-nested', 'INSERT INTO int1.t1 (a, b, c) VALUES ({P}, lower({P}), {P} + 1), (CAST({P} AS int), 7, abs({P}))'),
+    ('insert-values-nested-nocols', 'INSERT INTO int1.t1 VALUES (f({P}, {P}), {P})'),
     ('update', 'UPDATE int1.t1 SET a = {P}, b = {P} WHERE c = {P}'),
     ('update-expr', 'UPDATE int1.t1 SET a = a + {P}, b = f({P}) WHERE c = {P} AND d IN ({P}, {P})'),
     # UPDATE .. FROM (sub-select): placeholders in SET, inside the sub-select and in WHERE, in that textual order
